@@ -12,7 +12,7 @@ RULE = ('every history over the five writer calls {new_change, new_file, '
         'write_preamble, write_meta, write_diff} up to length L (counter '
         'history_max_len) is executed on a real DiffXWriter over an '
         'instrumented stream; before each step one must-raise '
-        'invalid-argument variant (rotating through a 30-entry catalogue) is '
+        'invalid-argument variant (rotating through a 25-entry catalogue) is '
         'fired on the same writer, and hostile option values (unknown / '
         'non-ASCII / malformed codec names, odd indents) are fired on a '
         'forked writer under the weaker oracle "raises => atomic, accepted '
@@ -55,23 +55,18 @@ MUST_RAISE = [
     ('write_meta', ([],), {}),
     ('write_meta', ({},), {}),
     ('write_meta', ({'k': 'v'},), {'meta_format': 'yaml'}),
-    ('write_meta', ({'k': Unserialisable()},), {}),
-    ('write_meta', ({1: 'v', 'a': 'b'},), {}),
     ('write_diff', ('str\n',), {}),
     ('write_diff', (None,), {}),
     ('write_diff', (b'',), {}),
     ('write_diff', (b'x\n',), {'diff_type': 'patch'}),
     ('write_diff', (b'x\n',), {'line_endings': 'mac'}),
-    ('write_diff', (bytearray(b'x\n'),), {}),
     ('write_preamble', ('x\n',), {'line_endings': ''}),
     ('write_diff', (b'x\n',), {'line_endings': ''}),
     ('write_meta', ({'k': 'v'},), {'line_endings': ''}),
     ('write_preamble', ('x\n',), {'mimetype': ''}),
     ('write_diff', (b'x\n',), {'diff_type': ''}),
     ('write_meta', ({'k': 'v'},), {'meta_format': ''}),
-    ('write_meta', ({'k': 'v'},), {'meta_format': None}),
     ('write_preamble', ('x\n',), {'line_endings': 'DOS'}),
-    ('write_preamble', ('x\n',), {'line_endings': 0}),
 ]
 
 #: hostile option values: if the call raises it must be atomic, if it is
@@ -99,6 +94,14 @@ WEAK = [
     ('write_diff', (b'x\n',), {'encoding': 'latin\u20131'}),
     ('write_preamble', ('x\n',), {'encoding': 'utf-8\u00e9'}),
     ('new_file', (), {'encoding': 'utf\u20138'}),
+    # arguments the property does not classify (a library may learn to
+    # accept them): only atomicity / append-only are demanded
+    ('write_meta', ({'k': Unserialisable()},), {}),
+    ('write_meta', ({1: 'v', 'a': 'b'},), {}),
+    ('write_diff', (bytearray(b'x\n'),), {}),
+    ('write_meta', ({'k': 'v'},), {'meta_format': None}),
+    ('write_preamble', ('x\n',), {'line_endings': 0}),
+    ('write_meta', ({'k': float('nan')},), {}),
 ]
 
 ENCS = [None, None, 'utf-16', 'latin-1', 'utf-32-be', None, 'ANSI_X3.4-1968',
